@@ -119,23 +119,32 @@ void constructCommon(ModelSignature model,
 
     bool main_is_current = false; // indicates whether the main file already holds the current state of the grid
     if (!filename.empty()){ // recover from an existing checkpoint
-        std::ifstream infile(filename, std::ios::binary);
-        try{ // attempt to recover from filename
-            if (!infile.good()) throw std::runtime_error("missing main checkpoint");
+        // a crash in the middle of a write leaves a truncated file, test each file using scratch objects
+        // so that an incomplete or corrupt checkpoint cannot damage the grid or the list of complete samples
+        auto is_valid_checkpoint = [&](std::string const &name)->bool{
+            std::ifstream infile(name, std::ios::binary);
+            if (!infile.good()) return false;
+            try{
+                TasmanianSparseGrid scratch_grid;
+                CompleteStorage scratch_complete(num_dimensions);
+                scratch_grid.read(infile, mode_binary);
+                scratch_complete.read(infile);
+                return ((size_t) scratch_grid.getNumDimensions() == num_dimensions) && ((size_t) scratch_grid.getNumOutputs() == num_outputs);
+            }catch(std::exception &){
+                return false;
+            }
+        };
+        auto recover_from = [&](std::string const &name)->void{
+            std::ifstream infile(name, std::ios::binary);
             grid.read(infile, mode_binary);
             complete.read(infile);
+        };
+        if (is_valid_checkpoint(filename)){
+            recover_from(filename);
             main_is_current = true;
-        }catch(std::runtime_error &){
-            // main file is missing or is corrupt, try the older version
-            std::ifstream oldfile(filename_old, std::ios::binary);
-            try{
-                if (!oldfile.good()) throw std::runtime_error("missing main checkpoint");
-                grid.read(oldfile, mode_binary);
-                complete.read(oldfile);
-            }catch(std::runtime_error &){
-                // nothing could be recovered, start over from the current grid
-            }
-        }
+        }else if (is_valid_checkpoint(filename_old)){
+            recover_from(filename_old); // main file is missing or is corrupt, using the older version
+        } // else nothing could be recovered, start over from the current grid
     }
 
     if (!filename.empty() && !main_is_current){ // initial checkpoint
